@@ -13,11 +13,11 @@ SPEC = dict(
           "positive at the window minimum and non-positive at the maximum (IVT + halving invariant, explicit fuel; 18 halvings cover "
           "the default window). The same generic definitions run at Float and are compared bit-for-bit with Group.calculate_charge, "
           "ConformationContainer.calculate_charge, get_charge_profile and get_pi on real runs; the specification (independent sums, "
-          "root test) is evaluated on the real objects and on the charge table and pI line parsed from the .pka text.",
+          "root test) is evaluated on the real objects and on the charge table and pI line parsed from the .pka text. The folding-energy and charge sections of the .pka file are part of the output model on top of Program.run (Model/Output.lean: profile on the grid of the options, window lattice in exact thousandths, optimum, ranges, pI); the program-level correspondence of this check compares them character by character with the real sections, under -g / -w.",
     note="Theorems over R; the Float instance is compared with the code (same libm pow/log10). 10**x overflows for |pH-pK| > 308 and "
          "precision <= 0 makes the real recursion unbounded: generators stay within |pH - pK| <= 40 and precision >= 1e-9.",
     technique="Lean 4/Mathlib proof over the reals (monotonicity, continuity, IVT bisection invariant) + bitwise Float correspondence",
-    lean=["Propka.Props.C09"],
+    lean=["Propka.Props.C09", "Propka.Props.Program"],
     rule="random (q, pK, pH) kernels incl. q in {+-1, +-2, 0}; real runs (test files, library fragments, hetero-only, no titratable group at "
          "all) x pH grids x search windows and precisions; non-trivial = distinct (structure, grid/window) with at least one titratable group",
     assumptions=["IEEE rounding not modelled (theorems over the reals)"],
